@@ -60,6 +60,9 @@ def plan(tier, seed):
         out += L.split_plan("unordered:U3x3x2", spaces.shape_pairs(3, 3), u2, 150, {"family": "unordered", "costs": QUICK_MENU[:4]})
         out += L.split_plan("unordered:U4x2x2", spaces.shape_pairs(4, 2, min_obj=4), u2, 150,
                             {"family": "unordered", "costs": [(1, 1, 1, 1, 1), (0, 1, 1, 1, 0)]})
+        # 5 object leaves in a chain on one species: an INHERIT node that gains a family above another INHERIT node
+        out += L.split_plan("unordered:U5chainx1x3", [(sh, None) for sh in spaces.chain_shapes(5)], u3, 150,
+                            {"family": "unordered", "costs": QUICK_MENU[:1]})
         pp = poly_pairs(3, 3)
         out += L.split_plan("poly-ordered:3x3x2", pp, o2, 60, {"family": "ordered", "poly": True, "costs": QUICK_MENU[:2]})
         out += L.split_plan("poly-unordered:3x3x2", pp, u2, 60, {"family": "unordered", "poly": True, "costs": QUICK_MENU[:2]})
@@ -73,6 +76,8 @@ def plan(tier, seed):
     out += L.split_plan("ordered:O4x3x2", spaces.shape_pairs(4, 3, min_obj=4), o2, 100, {"family": "ordered", "costs": nz[:8]})
     out += L.split_plan("unordered:U3x3x3", spaces.shape_pairs(3, 3), u3, 100, {"family": "unordered", "costs": FULL_MENU})
     out += L.split_plan("unordered:U4x3x2", spaces.shape_pairs(4, 3, min_obj=4), u2, 100, {"family": "unordered", "costs": nz[:8]})
+    out += L.split_plan("unordered:U5chainx1x3", [(sh, None) for sh in spaces.chain_shapes(5)], u3, 150,
+                        {"family": "unordered", "costs": QUICK_MENU[:3]})
     pp = poly_pairs(3, 3)
     out += L.split_plan("poly-ordered:3x3x2", pp, o2, 40, {"family": "ordered", "poly": True, "costs": QUICK_MENU[:3]})
     out += L.split_plan("poly-unordered:3x3x2", pp, u2, 40, {"family": "unordered", "poly": True, "costs": QUICK_MENU[:3]})
